@@ -128,18 +128,23 @@ func vhC03Handlers(text string) (map[string]vhC03Handler, bool) {
 
 func vh_C03_front_effective_security_Q() {
 	engine := symxChoice("engine", 5)
-	own := symxChoice("own", 3)       // the method's own @Security annotations: none, one, two alternatives
+	own := symxChoice("own", 5)       // the method's own @Security annotations: none, one, two (second one scoped / bare / empty scopes)
 	ctlSec := vhC09Flag("controller") // @Security on the controller
 	def := vhC09Flag("default")       // configured default security
-	scopes := symxChoice("scopes", 3)
-	scopeText := []string{"", `"read"`, `"read", "write"`}[scopes]
-	scopeWant := []string{"", "read", "read,write"}[scopes]
+	scopes := symxChoice("scopes", 2)
+	scopeText := []string{"", `"read", "write"`}[scopes]
+	scopeWant := []string{"", "read,write"}[scopes]
 	r1 := vhC09Route{name: "Guarded", verb: "GET", path: "/guarded", result: 1}
 	if own >= 1 {
 		r1.doc = append(r1.doc, "// @Security(sec, { scopes: ["+scopeText+"] })")
 	}
-	if own == 2 {
+	switch own {
+	case 2:
 		r1.doc = append(r1.doc, `// @Security(alt, { scopes: ["x"] })`)
+	case 3:
+		r1.doc = append(r1.doc, `// @Security(alt)`) // no scopes of its own: none, not the previous alternative's
+	case 4:
+		r1.doc = append(r1.doc, `// @Security(alt, { scopes: [] })`)
 	}
 	routes := []vhC09Route{r1, {name: "Plain", verb: "GET", path: "/plain", result: 1}}
 	src := vhC09Source(routes)
@@ -176,6 +181,8 @@ func vh_C03_front_effective_security_Q() {
 		wantGuarded = "sec[" + scopeWant + "]"
 	case 2:
 		wantGuarded = "sec[" + scopeWant + "] | alt[x]"
+	case 3, 4:
+		wantGuarded = "sec[" + scopeWant + "] | alt[]"
 	}
 	g, okG := hs["Guarded"]
 	p, okP := hs["Plain"]
